@@ -46,7 +46,7 @@ def coerce_pair(a, b):
 class SArr:
     """Lazy array: shape (python ints or z3 Ints; rank concrete) + element getter.
     `flat`: optional getter on the row-major flat index of the *leading block* `flat_lead` dims."""
-    __slots__ = ("shape", "get", "name", "flat", "vec", "tag")
+    __slots__ = ("shape", "get", "name", "flat", "vec", "tag", "store_cast", "vflat")
     def __init__(self, shape, get, name=None, flat=None, vec=None, tag=None):
         # vec: for "vector arrays" (last axis = vector components): leading-index tuple -> z3 Vec term
         # tag: ("arange", lo) for aranges (identity gathers), etc.
